@@ -50,6 +50,7 @@ type c16 struct {
 	unit     int64
 	deadline time.Time
 	capped   bool
+	seen     map[string]bool
 }
 
 func buildStream(byName map[string]cat.Envelope, names []string, s cat.Ser) (*streamCase, error) {
@@ -171,6 +172,14 @@ func (h *c16) try(sc *streamCase, cs cutSet) {
 		return
 	}
 	sig := fmt.Sprintf("C16:%s:%s/%s", clause, sc.Ser, sc.msg)
+	if h.seen[sig] && !h.verbose {
+		h.res.Violate("C16", sig, "", nil) // counted; the first case of a signature carries detail and replay
+		return
+	}
+	if h.seen == nil {
+		h.seen = map[string]bool{}
+	}
+	h.seen[sig] = true
 	h.res.Violate("C16", sig, fmt.Sprintf("[%s, %d bytes, cuts %v chunk %d] %s", sc.name(), len(sc.data), cs.Cuts, cs.Chunk, detail),
 		c16Replay{Harness: "codec", Property: "C16", Entries: sc.Entries, Serializer: sc.Ser.String(), cutSet: cs})
 }
